@@ -371,6 +371,11 @@ Vec4_idivObj(IMATH_NAMESPACE::Vec4<T> &v, const object &o)
     }
     else
     {
+        // a scalar of the element type is used as is: going through
+        // double loses the low bits of 64-bit integers
+        extract<T> et(o);
+        if (et.check())
+            return v /= et();
         extract<double> e(o);
         if (e.check())
             return v /= (T) e();
